@@ -65,7 +65,39 @@ func constStr(c *ssa.Const) string {
 	return s
 }
 
+// nm names an SSA value; values of inlined callees are qualified by their function.
+func (c *canonCtx) nm(v ssa.Value) string {
+	return c.ex.vname(v)
+}
+
+func (ex *Explorer) vname(v ssa.Value) string {
+	if ex != nil {
+		if in, ok := v.(ssa.Instruction); ok && in.Parent() != nil && in.Parent() != ex.Fn {
+			return in.Parent().Name() + "·" + v.Name()
+		}
+	}
+	return v.Name()
+}
+
 func (c *canonCtx) param(p *ssa.Parameter) string {
+	// parameter of an inlined callee: the caller's argument
+	if c.st != nil {
+		for i := len(c.st.frames) - 1; i >= 0; i-- {
+			fr := c.st.frames[i]
+			if fr.fn == p.Parent() {
+				for j, q := range fr.fn.Params {
+					if q == p && j < len(fr.params) {
+						ce := fr.params[j]
+						for d := range ce.Deps {
+							c.deps[d] = true
+						}
+						c.reads = append(c.reads, ce.Reads...)
+						return ce.S
+					}
+				}
+			}
+		}
+	}
 	for i, q := range p.Parent().Params {
 		if q == p {
 			return fmt.Sprintf("$%d", i)
@@ -106,7 +138,7 @@ func (c *canonCtx) loc(v ssa.Value) string {
 		return x.String()
 	case *ssa.Alloc:
 		c.deps[x] = true
-		return "new@" + x.Name()
+		return "new@" + c.nm(x)
 	case *ssa.Phi:
 		if r, ok := c.resolvePhi(x); ok {
 			return c.loc(r)
@@ -174,7 +206,7 @@ func (c *canonCtx) val(v ssa.Value) string {
 		return "builtin:" + x.Name()
 	case *ssa.Alloc:
 		c.deps[x] = true
-		return "&new@" + x.Name()
+		return "&new@" + c.nm(x)
 	case *ssa.FieldAddr, *ssa.IndexAddr:
 		return "&" + c.loc(v)
 	case *ssa.Field:
@@ -198,7 +230,7 @@ func (c *canonCtx) val(v ssa.Value) string {
 			return "^" + c.val(x.X)
 		case token.ARROW:
 			c.deps[x] = true
-			return "<-@" + x.Name()
+			return "<-@" + c.nm(x)
 		}
 	case *ssa.BinOp:
 		a, b := c.val(x.X), c.val(x.Y)
@@ -208,7 +240,7 @@ func (c *canonCtx) val(v ssa.Value) string {
 			return c.val(r)
 		}
 		c.deps[x] = true
-		return "φ" + x.Name()
+		return "φ" + c.nm(x)
 	case *ssa.ChangeType:
 		return c.val(x.X)
 	case *ssa.ChangeInterface:
@@ -230,6 +262,16 @@ func (c *canonCtx) val(v ssa.Value) string {
 		}
 		return c.base(x.X) + "[" + lo + ":" + hi + mx + "]"
 	case *ssa.Extract:
+		if call, ok := x.Tuple.(*ssa.Call); ok && c.st != nil {
+			if res, ok := c.st.callres[call]; ok && x.Index < len(res) {
+				ce := res[x.Index]
+				for d := range ce.Deps {
+					c.deps[d] = true
+				}
+				c.reads = append(c.reads, ce.Reads...)
+				return ce.S
+			}
+		}
 		return c.val(x.Tuple) + "#" + fmt.Sprint(x.Index)
 	case *ssa.Lookup:
 		c.deps[x] = true
@@ -237,39 +279,39 @@ func (c *canonCtx) val(v ssa.Value) string {
 		k := c.val(x.Index)
 		c.reads = append(c.reads, memRead{Path: strings.TrimPrefix(m, "&"), Elem: true, ElemT: "map"})
 		if x.CommaOk {
-			return "lookup@" + x.Name() + "(" + m + "," + k + ")"
+			return "lookup@" + c.nm(x) + "(" + m + "," + k + ")"
 		}
 		return m + "[" + k + "]"
 	case *ssa.TypeAssert:
 		s := c.val(x.X) + ".(" + shortType(x.AssertedType) + ")"
 		if x.CommaOk {
 			c.deps[x] = true
-			return "assert@" + x.Name() + ":" + s
+			return "assert@" + c.nm(x) + ":" + s
 		}
 		return s
 	case *ssa.MakeSlice:
 		c.deps[x] = true
-		return "make@" + x.Name()
+		return "make@" + c.nm(x)
 	case *ssa.MakeMap:
 		c.deps[x] = true
-		return "makemap@" + x.Name()
+		return "makemap@" + c.nm(x)
 	case *ssa.MakeChan:
 		c.deps[x] = true
-		return "makechan@" + x.Name()
+		return "makechan@" + c.nm(x)
 	case *ssa.MakeClosure:
 		c.deps[x] = true
-		return "closure:" + x.Fn.Name() + "@" + x.Name()
+		return "closure:" + x.Fn.Name() + "@" + c.nm(x)
 	case *ssa.Call:
 		return c.call(x)
 	case *ssa.Next:
 		c.deps[x] = true
-		return "next@" + x.Name()
+		return "next@" + c.nm(x)
 	case *ssa.Range:
 		c.deps[x] = true
-		return "range@" + x.Name() + "(" + c.val(x.X) + ")"
+		return "range@" + c.nm(x) + "(" + c.val(x.X) + ")"
 	}
 	c.deps[v] = true
-	return fmt.Sprintf("%T@%s", v, v.Name())
+	return fmt.Sprintf("%T@%s", v, c.nm(v))
 }
 
 func shortType(t types.Type) string {
@@ -278,13 +320,31 @@ func shortType(t types.Type) string {
 
 func (c *canonCtx) call(x *ssa.Call) string {
 	cc := &x.Call
+	if c.st != nil {
+		if res, ok := c.st.callres[x]; ok {
+			for _, ce := range res {
+				for d := range ce.Deps {
+					c.deps[d] = true
+				}
+				c.reads = append(c.reads, ce.Reads...)
+			}
+			if len(res) == 1 {
+				return res[0].S
+			}
+			parts := make([]string, len(res))
+			for i, ce := range res {
+				parts[i] = ce.S
+			}
+			return "tuple(" + strings.Join(parts, ";") + ")"
+		}
+	}
 	if b, ok := cc.Value.(*ssa.Builtin); ok {
 		switch b.Name() {
 		case "len", "cap", "min", "max":
 			return b.Name() + "(" + c.args(cc.Args) + ")"
 		}
 		c.deps[x] = true
-		return b.Name() + "@" + x.Name() + "(" + c.args(cc.Args) + ")"
+		return b.Name() + "@" + c.nm(x) + "(" + c.args(cc.Args) + ")"
 	}
 	pure := c.ex != nil && c.ex.Pure != nil && c.ex.Pure.IsPureCall(cc)
 	var name string
@@ -316,7 +376,7 @@ func (c *canonCtx) call(x *ssa.Call) string {
 		return name + "(" + as + ")"
 	}
 	c.deps[x] = true
-	return name + "@" + x.Name() + "(" + as + ")"
+	return name + "@" + c.nm(x) + "(" + as + ")"
 }
 
 // load renders a memory read. Reads of tracked local variables resolve to the
@@ -360,6 +420,30 @@ func (ex *Explorer) Resolve(st *State, v ssa.Value) ssa.Value {
 			if st != nil {
 				if k, ok := st.phis[x]; ok && k >= 0 && k < len(x.Edges) {
 					v = x.Edges[k]
+					continue
+				}
+			}
+			return v
+		case *ssa.Parameter:
+			if st != nil {
+				if a := st.boundArg(x); a != nil && a.V != nil && a.V != v {
+					v = a.V
+					continue
+				}
+			}
+			return v
+		case *ssa.Call:
+			if st != nil {
+				if res, ok := st.callres[x]; ok && len(res) == 1 && res[0].V != nil && res[0].V != v {
+					v = res[0].V
+					continue
+				}
+			}
+			return v
+		case *ssa.Extract:
+			if call, ok := x.Tuple.(*ssa.Call); ok && st != nil {
+				if res, ok := st.callres[call]; ok && x.Index < len(res) && res[x.Index].V != nil && res[x.Index].V != v {
+					v = res[x.Index].V
 					continue
 				}
 			}
